@@ -147,9 +147,15 @@ def _build_def(freeze=True):
     (the model has no context-extending deltas: these histories are run on the real code only)"""
     from pylatexenc.latexwalker import get_default_latex_context_db
     from pylatexenc.macrospec import MacroSpec
+    from pylatexenc.macrospec import EnvironmentSpec, ParsingStateDeltaExtendLatexContextDb
     db = get_default_latex_context_db()
+    # environments whose (shared) body delta both extends the context and sets attributes
+    enumx = EnvironmentSpec('enumx', '', body_parsing_state_delta=ParsingStateDeltaExtendLatexContextDb(
+        extend_latex_context=dict(macros=[MacroSpec('itemx', '[')]), set_attributes=dict(enable_comments=True)))
+    descx = EnvironmentSpec('descx', '', body_parsing_state_delta=ParsingStateDeltaExtendLatexContextDb(
+        extend_latex_context=dict(macros=[MacroSpec('term', '{')]), set_attributes=dict(enable_specials=True)))
     db.add_context_category(None, macros=[MacroSpec('defmacro', '{', make_after_parsing_state_delta=_defmacro_after)],
-                            prepend=True)
+                            environments=[enumx, descx], prepend=True)
     if freeze:
         db.freeze()
     return {'c9def': db}
@@ -437,6 +443,13 @@ def gen_cases(seed, tier):
                           {'ctx': 'c9obj2', 's': '\\ov{a{b}c}[o]d', 'tolerant': False, 'db': 'shared'},
                           {'ctx': 'c9kw', 's': '\\kv{a{b}c}d', 'tolerant': False, 'db': 'shared'}], 'corpus'))
     # a database extended while parsing (document-defined macros): real code only
+    edocs = ['\\begin{enumx}\\itemx[a] b\\term{V}\\end{enumx}',
+             '\\begin{descx}\\term{T}\\begin{enumx}\\itemx[a]\\term{U}\\end{enumx}\\itemx[q]\\end{descx}',
+             '\\term{W}\\itemx[r] \\begin{descx}\\term{X}\\end{descx}']
+    for n in (2, 3):
+        for docs in itertools.permutations(edocs, n):
+            for tol in (False, True):
+                cases.append(mk_case([{'ctx': 'c9def', 's': s, 'tolerant': tol, 'db': 'shared'} for s in docs], 'extending-body-delta'))
     ddocs = ['\\defmacro{\\foo} then \\foo{x}.', 'here \\foo{x} y', '\\defmacro{\\baz}\\baz{q}\\foo{x}', '{\\defmacro{\\foo}}\\foo{x}',
              '\\defmacro{\\textbf}\\textbf{a}']
     for n in (2, 3):
